@@ -44,8 +44,10 @@ def bind_repo():
     if not f.startswith(root + os.sep):
         raise HarnessError(f'pySDC imported from {f}, expected under {root}')
     import logging
+    import warnings
 
     logging.disable(logging.CRITICAL)
+    warnings.filterwarnings('ignore')
 
 
 class HarnessError(Exception):
